@@ -759,3 +759,25 @@ func FreeConsumerPause(rng *Rng) (string, Cfg) {
 	c.WaitInput = 2
 	return "free-consumer-pause", c
 }
+
+// GatedRefusedThenClose: the packet the encoder refuses is met by the RUNNING writer pump (not
+// by the close-time flush): the sender queues packets up to and including the over-limit one,
+// the writer processes all of them, then more sends, then Close and everything else in seeded
+// random order.  Close must still perform the shutdown itself and return only when every
+// accepted encodable packet is out.
+func GatedRefusedThenClose(rng *Rng) (string, Cfg) {
+	c := base(rng, 1)
+	c.Codec = 1
+	var g idGen
+	m := rng.Range(1, 4)
+	k := m + rng.Range(1, 8)
+	c.Ocap = rng.PickInt(k, 128)
+	ps := g.pkts(rng, k, smallSizes)
+	ps[m-1].Size = oversizeV1
+	c.Senders = [][]PktSpec{ps}
+	c.Closers = []bool{true}
+	c.Input = inputFrames(rng, rng.Range(0, 1), smallSizes)
+	c.Script = []Dir{{DRun, TSender * 1000, 3 * m}, {DRun, TWriter * 1000, 60}, {DRun, TSender * 1000, 3 * (k - m)},
+		{DRand, rng.Range(0, 30), 0}, {DFinish, 0, 0}}
+	return "gated-refused-then-close", c
+}
